@@ -351,6 +351,7 @@ def run(ctx):
     shared.control_index_monotone_rule(ctx, 'C05.l', ['cirq-core/cirq/circuits/'], floor=1)
     _batch_insert_shift(ctx, repo)
     _placement_sites_key_aware(ctx, repo)
+    _inline_cursor_monotone(ctx, repo)
     ctx.decided.append('C05.l placement bookkeeping keeps, per control key, the latest moment that reads it (running maximum)')
     ctx.decided.append('C05.k the control keys the placement logic orders operations by cover every child of a wrapping operation')
     ctx.decided.append('C05.j a one-shot OP_TREE / Iterable argument is walked once: after it has been flattened into a local, the raw argument is not consumed again')
@@ -917,3 +918,35 @@ def _placement_sites_key_aware(ctx, repo):
                'moment or in the wrong order', m.rel, fn.lineno)
     if n == 0:
         raise AnalysisError('C05.n: no placement routine found')
+
+
+def _inline_cursor_monotone(ctx, repo):
+    """C05.o - insert_into_range writes inline: the moment cursor only moves forward over the whole call."""
+    ctx.decided.append('C05.o Circuit.insert_into_range keeps one forward-moving moment cursor for all operations of the call (operations handed in together keep their order among themselves)')
+    ctx.rule('C05.o', 'one cursor per call: in Circuit.insert_into_range the variable that indexes the moment being written (self._moments[i] = ...) is initialised before the loop over the '
+             'operations and is only increased inside it - re-initialising it per operation lets a later operation land in a moment an earlier one of the same call had to skip', floor=1, style='MPT')
+    ci = repo.cls('cirq.circuits.circuit.Circuit')
+    fn = ci.methods.get('insert_into_range')
+    if fn is None:
+        raise AnalysisError('Circuit.insert_into_range vanished')
+    par = ci.mod.parents()
+    stores = [s for s in ast.walk(fn) if isinstance(s, ast.Assign) and isinstance(s.targets[0], ast.Subscript) and ast.unparse(s.targets[0].value).endswith('_moments')
+              and isinstance(s.targets[0].slice, ast.Name)]
+    if not stores:
+        raise AnalysisError('insert_into_range: the inline write self._moments[i] = ... vanished')
+    cur = stores[0].targets[0].slice.id
+    loop = stores[0]
+    outer = None
+    while loop in par and loop is not fn:
+        loop = par[loop]
+        if isinstance(loop, (ast.While, ast.For)):
+            outer = loop
+    if outer is None:
+        raise AnalysisError('insert_into_range: loop over the operations vanished')
+    inside = {id(x) for x in ast.walk(outer)}
+    bad = [a for a in ast.walk(fn) if isinstance(a, ast.Assign) and any(isinstance(t, ast.Name) and t.id == cur for t in a.targets) and id(a) in inside]
+    inits = [a for a in ast.walk(fn) if isinstance(a, ast.Assign) and any(isinstance(t, ast.Name) and t.id == cur for t in a.targets) and id(a) not in inside]
+    ok = not bad and bool(inits)
+    ctx.ob('C05.o', f'{ci.qual}.insert_into_range:cursor-{cur}', ok, '' if ok else
+           f'`{ast.unparse(bad[0]) if bad else cur}` (re)sets the write cursor inside the loop over the operations: the scan restarts for every operation, so operations of one call that share '
+           'a qubit can be written out of order', ci.mod.rel, (bad[0].lineno if bad else fn.lineno))
